@@ -488,7 +488,10 @@ def gen_c20_server(rng, thorough=False):
             steps.append({"op": "req_start", "c": 0, "unit": 1, "pdu": req_read(3, 9998, 3)})
             for _ in range(burst):
                 steps.append({"op": "decode", "level": [rng.randrange(4), rng.randrange(3), rng.randrange(3)]})
+            # while that session is still busy (its queue may be full by now) the server task goes on accepting
+            steps.append(conn(7, "127.1.2.3"))
             steps.append({"op": "rsp_wait", "c": 0})
+            steps.append(req(7, req_read(3, 0, 2), 2))
             steps.append(req(0, req_read(3, 0, 2), 1))
             if others:
                 steps.append(req(1, req_wsr(3, 7), 1))
